@@ -103,8 +103,20 @@ def _backend_of_test(test):
     return None
 
 
-def backend_paths(prog, f):
-    """All backend paths of public function f: via ArrayTypeFunctionMapping or isinstance chains."""
+def backend_paths(prog, f, _view=True):
+    """All backend paths of public function f: via ArrayTypeFunctionMapping or isinstance chains.  When f itself
+    dispatches nothing, its view with small private straight-line helpers inlined (inline.py) is read instead - the
+    dispatch may have been moved into a helper; the paths' `scope` is then that view."""
+    paths = _backend_paths(prog, f)
+    if not [p for p in paths if p.backend in ('numpy', 'dask')] and _view and not f.is_lambda:
+        from .inline import inline_view
+        g = inline_view(prog, f)
+        if g is not f:
+            paths = _backend_paths(prog, g)
+    return paths
+
+
+def _backend_paths(prog, f):
     paths = []
     for n in f.own_nodes():
         if isinstance(n, ast.Call) and isinstance(n.func, (ast.Call, ast.Name)):
@@ -158,10 +170,34 @@ def local_value(f, e, depth=0):
     while isinstance(e, ast.Name) and depth < 5:
         vals = [v for v in f.local_assigns().get(e.id, []) if isinstance(v, ast.AST)]
         if len(vals) != 1 or e.id in f.params:
-            break
+            # one component of a tuple assignment `a, b = x, y`
+            tv = _tuple_component(f, e.id)
+            if tv is None or e.id in f.params:
+                break
+            vals = [tv]
         e = vals[0]
         depth += 1
     return e
+
+
+def _tuple_component(f, name):
+    found = []
+    for n in f.own_nodes():
+        if isinstance(n, ast.Assign):
+            for t in n.targets:
+                if isinstance(t, ast.Name) and t.id == name:
+                    found.append(None)
+                elif isinstance(t, (ast.Tuple, ast.List)):
+                    for i, x in enumerate(t.elts):
+                        if isinstance(x, ast.Name) and x.id == name:
+                            if isinstance(n.value, (ast.Tuple, ast.List)) and len(n.value.elts) == len(t.elts):
+                                found.append(n.value.elts[i])
+                            else:
+                                found.append(None)
+        elif isinstance(n, (ast.AugAssign, ast.For)) and any(isinstance(x, ast.Name) and x.id == name and isinstance(x.ctx, ast.Store)
+                                                             for x in ast.walk(n.target)):
+            found.append(None)
+    return found[0] if len(found) == 1 else None
 
 
 def delegation_binding(prog, pub, target, depth=0, seen=None):
